@@ -242,34 +242,43 @@ def add_object(drv, spec, k):
 
 
 def observe_store(drv, user='alice'):
-    """Summary of every stored object as the engine's own ORM classes see it (fresh session) + whether `user` passes the
-    default operation policy (owner only).  This is the `store` the Coq model receives."""
-    eng = drv.eng.engine
-    out = []
-    session = eng._data_store_session_factory()
+    """Summary of every stored object (raw SQL read of the tables the engine's ORM maps; the class is the one
+    KmipEngine._object_map gives for the stored object type, exactly as _get_object_type does) + whether `user` passes
+    the default operation policy (owner only).  This is the `store` the Coq model receives."""
+    import sqlite3
+    omap = drv.eng.engine._object_map
+    con = sqlite3.connect(drv.eng.path)
+    con.row_factory = sqlite3.Row
     try:
-        for o in session.query(pobjects.ManagedObject).order_by(pobjects.ManagedObject.unique_identifier).all():
-            masks = getattr(o, 'cryptographic_usage_masks', None)
-            mval = 0
-            for m in (masks or []):
-                mval |= m.value
-            st = getattr(o, 'state', None)
-            kft = getattr(o, 'key_format_type', None)
-            alg = getattr(o, 'cryptographic_algorithm', None)
-            pol = o.operation_policy_name
+        q = lambda sql: [dict(r) for r in con.execute(sql)]
+        crypto = {r['uid']: r for r in q('select * from crypto_objects')}
+        keys = {r['uid']: r for r in q('select uid, cryptographic_algorithm, cryptographic_length, key_format_type from keys')}
+        names, asi, groups = {}, {}, {}
+        for r in q('select mo_uid, name from managed_object_names order by id'):
+            names.setdefault(r['mo_uid'], []).append(r['name'])
+        for r in q('select m.managed_object_id u, a.application_namespace n, a.application_data d from app_specific_info_map m '
+                   'join app_specific_info a on a.id = m.app_specific_info_id order by a.id'):
+            asi.setdefault(r['u'], []).append('%s|%s' % (r['n'], r['d']))
+        for r in q('select m.managed_object_id u, g.object_group g from object_group_map m join object_groups g on g.id = m.object_group_id order by g.id'):
+            groups.setdefault(r['u'], []).append(r['g'])
+        out = []
+        for r in q('select * from managed_objects order by uid'):
+            u = r['uid']
+            cls = omap[enums.ObjectType(r['object_type'])]
+            c = crypto.get(u)
+            k = keys.get(u)
+            en = lambda x: None if x is None or x == -1 else x
             out.append({
-                'uid': int(o.unique_identifier), 'cls': type(o).__name__, 'otype': o._object_type.value,
-                'allowed': bool(o._owner == user) if pol == 'default' else None,
-                'state': st.value if st is not None else None, 'mask': mval,
-                'names': [str(n) for n in o.names],
-                'asi': ['%s|%s' % (a.application_namespace, a.application_data) for a in o.app_specific_info],
-                'groups': [str(g.object_group) for g in o.object_groups],
-                'value_empty': not bool(o.value), 'kft': kft.value if kft is not None else None,
-                'alg': alg.value if alg is not None else None,
-                'len': getattr(o, 'cryptographic_length', None), 'sensitive': bool(o.sensitive), 'policy': pol})
+                'uid': int(u), 'cls': cls.__name__, 'otype': r['object_type'],
+                'allowed': bool(r['owner'] == user), 'state': en(c['state']) if c else None,
+                'mask': (c['cryptographic_usage_mask'] or 0) if c else 0,
+                'names': names.get(u, []), 'asi': asi.get(u, []), 'groups': groups.get(u, []),
+                'value_empty': not bool(r['value']), 'kft': en(k['key_format_type']) if k else None,
+                'alg': en(k['cryptographic_algorithm']) if k else None, 'len': k['cryptographic_length'] if k else None,
+                'sensitive': bool(r['sensitive']), 'policy': r['operation_policy_name']})
+        return out
     finally:
-        session.close()
-    return out
+        con.close()
 
 
 # ---------------------------------------------------------------------------------------------- attribute menu
@@ -682,7 +691,7 @@ def global_menu(ver):
     out.append({'op': 'Register', 'otype': 'SYMMETRIC_KEY', 'secret': {'type': 'SECRET_DATA'}, 'ta': tmpl()})
     out.append({'op': 'Register', 'otype': 'TEMPLATE', 'secret': {'type': 'SECRET_DATA'}, 'ta': tmpl()})
     out.append({'op': 'Register', 'otype': 'PGP_KEY', 'secret': {'type': 'SECRET_DATA'}, 'ta': tmpl()})
-    for fs in (['QUERY_OPERATIONS', 'QUERY_OBJECTS'], [], ['QUERY_SERVER_INFORMATION', 'QUERY_EXTENSION_LIST', 'QUERY_EXTENSION_MAP',
+    for fs in (['QUERY_OPERATIONS', 'QUERY_OBJECTS'], ['QUERY_OBJECTS'], ['QUERY_SERVER_INFORMATION', 'QUERY_EXTENSION_LIST', 'QUERY_EXTENSION_MAP',
                                                             'QUERY_APPLICATION_NAMESPACES']):
         out.append({'op': 'Query', 'functions': fs})
     for vs in ((), ((1, 0), (2, 0)), ((9, 9),)):
@@ -978,15 +987,58 @@ class Grid:
             self.meta.append(witness)
         return obs
 
-    def compare(self, name='grid'):
+    def compare(self, name='grid', shard=300):
+        """Coq as comparator.  Like Ctx.run_cases, but every shard file defines only the stores its cases mention
+        (cases are sorted by store first), and at most 4 coqc processes run at a time."""
+        import re
+        import time
+        from concurrent.futures import ThreadPoolExecutor
         ctx = self.ctx
-        bad = ctx.run_cases(name, self.header(), self.cases, 'check_case', shard=250,
-                            what='NoCrash.Model.step / reaches_crypto vs KmipEngine._process_operation (crash site, crypto call reached)')
-        for i in bad[:20]:
-            says = ctx.model_output(self.header(), 'model_says %s' % self.cases[i]) if len(bad) <= 40 else None
+        by_name = {n: t for t, n in self.stores.items()}
+        order = sorted(range(len(self.cases)), key=lambda i: (int(re.search(r'st(\d+)', self.cases[i]).group(1)), i))
+        shards = [order[i:i + shard] for i in range(0, len(order), shard)]
+
+        def header_for(idx):
+            used = sorted({re.search(r'st\d+', self.cases[i]).group(0) for i in idx}, key=lambda x: int(x[2:]))
+            return HEADER + ''.join('Definition %s : store := %s.\n' % (n, by_name[n]) for n in used)
+
+        def one(arg):
+            k, idx = arg
+            text = (header_for(idx) + 'Definition cases_ := [\n  ' + ';\n  '.join(self.cases[i] for i in idx) + '\n].\n'
+                    'Definition bad_ := map fst (filter (fun p => negb (snd p)) (combine (seq 0 (length cases_)) (map check_case cases_))).\n'
+                    'Eval vm_compute in (length cases_, bad_).\n')
+            ok, out, err = ctx.coq_eval('%s_%03d' % (name, k), text, 900)
+            if not ok:
+                return idx, None, (err or out)[-3000:]
+            flat = ' '.join(out.split())
+            m = re.search(r'=\s*\((\d+)%?\w*,\s*(\[[^\]]*\]|nil)\s*\)', flat)
+            if not m or int(m.group(1)) != len(idx):
+                return idx, None, 'unparsable coqc output: ' + flat[-500:]
+            bad = [int(x) for x in re.findall(r'\d+', m.group(2))] if m.group(2) != 'nil' else []
+            return idx, [idx[j] for j in bad], ''
+
+        t0 = time.time()
+        bad_all, failed = [], []
+        with ThreadPoolExecutor(max_workers=4) as ex:
+            for idx, bad, err in ex.map(one, enumerate(shards)):
+                if bad is None:
+                    failed.append(err)
+                else:
+                    bad_all += bad
+        bad_all.sort()
+        c = ctx.cov['correspondences'].setdefault(name, {'cases': 0, 'disagreements': 0})
+        c['cases'] += len(self.cases)
+        c['disagreements'] += len(bad_all)
+        c['what'] = 'NoCrash.Model.step / reaches_crypto vs KmipEngine._process_operation (crash site, crypto call reached)'
+        ctx.log('correspondence %s: %d cases, %d disagree, %d shard failures, %.1fs' % (name, len(self.cases), len(bad_all), len(failed), time.time() - t0))
+        if failed:
+            ctx.broken.append({'kind': 'correspondence', 'name': name, 'detail': 'coqc failed on case file: ' + failed[0], 'candidates': []})
+        for i in bad_all[:20]:
+            says = ctx.model_output(header_for([i]), 'model_says %s' % self.cases[i]) if bad_all.index(i) < 6 else None
             ctx.disagreement(name, {'input': self.meta[i], 'coq_case': self.cases[i][:1500]}, model_says=says,
                              impl_says=self.meta[i]['observed'])
-        return bad
+        self.bad = bad_all
+        return bad_all
 
 
 # ---------------------------------------------------------------------------------------------- the check
@@ -1026,8 +1078,8 @@ def run_target(grid, drv, ver, t, st, rng, sample):
                 req = dict(req)
                 req['uid'] = add_object(drv, spec, 2)
                 store = observe_store(drv)
-            grid.cell(drv, req, ver, store, desc='%s.%s' % (t, st))
-            if req['op'] in MUTATING:
+            obs = grid.cell(drv, req, ver, store, desc='%s.%s' % (t, st))
+            if req['op'] in MUTATING and obs['status'] == 'SUCCESS':
                 store = observe_store(drv)
 
 
@@ -1049,16 +1101,17 @@ def run_aux(grid, ctx, ver, rng, sample):
             for req in menu:
                 if d == 'noncanonical':
                     continue       # SQLite integer affinity: outside the modelled identifier domain (DESIGN 5.5)
-                grid.cell(drv, req, ver, store, desc=d)
-                if req['op'] in MUTATING:
+                obs = grid.cell(drv, req, ver, store, desc=d)
+                if req['op'] in MUTATING and obs['status'] == 'SUCCESS':
                     store = observe_store(drv)
         allu = [o['uid'] for o in store]
         menu = derive_menu(allu)
         if sample is not None:
             menu = rng.sample(menu, min(len(menu), 12 * sample[0] + sample[1]))
         for req in menu:
-            grid.cell(drv, req, ver, store, desc='derive')
-            store = observe_store(drv)
+            obs = grid.cell(drv, req, ver, store, desc='derive')
+            if obs['status'] == 'SUCCESS':
+                store = observe_store(drv)
         for user in ('alice', 'bob', 'carol'):
             store = observe_store(drv, user)
             menu = locate_menu()
@@ -1080,8 +1133,8 @@ def run_global(grid, ctx, ver, rng, sample):
         if sample is not None:
             menu = stratified(menu, rng, 12 * sample[0], 4 * sample[1])
         for req in menu:
-            grid.cell(drv, req, ver, store, desc='global')
-            if req['op'] in MUTATING:
+            obs = grid.cell(drv, req, ver, store, desc='global')
+            if req['op'] in MUTATING and obs['status'] == 'SUCCESS':
                 store = observe_store(drv)
     finally:
         drv.close()
@@ -1161,6 +1214,12 @@ def run(ctx):
         'harness/c13.py: abstraction of concrete requests to NoCrash.Model.item (coq_item), observation of the store through the engine\'s own ORM classes',
         'the CryptographyEngine outcome (ok / KmipError / other exception) is an oracle input of the model, observed by wrapping its methods',
         'translate/gen_pieclasses.py reflection (hasattr on mapped classes, ObjectFactory.convert on canonical secrets, AttributePolicy probes)']
+    # findings.d/C13.json is merged into known_findings.json by the integrator (bin/mkmanifest); until then read it directly
+    import vlib.core as _core
+    have = {f.get('id') for f in ctx.findings}
+    fpath = _core.VERIF / 'findings.d' / 'C13.json'
+    if fpath.exists():
+        ctx.findings += [f for f in json.loads(fpath.read_text()) if f.get('property') == 'C13' and f.get('id') not in have]
     ctx.regen(only=['attrrules', 'pieclasses', 'enums'])
     ctx.prove('props/C13.v')
     grid = Grid(ctx)
@@ -1181,7 +1240,12 @@ def run(ctx):
     ctx.log('cells %d, distinct cases %d, stores %d, GENERAL_FAILURE cells %d' % (grid.cells, len(grid.cases), len(grid.stores), grid.crashes))
     ctx.cov['cells'] = grid.cells
     ctx.cov['general_failure_cells'] = grid.crashes
-    grid.compare('grid')
+    bad = grid.compare('grid')
+    if bad:
+        for i in bad[:40]:
+            m = grid.meta[i]
+            ctx.log('DISAGREE', m['version'], json.dumps(m['request'])[:300], '| impl:', m['observed']['reason'],
+                    site_string(m['observed']['crash']), m['observed']['crypto'])
     for i in (0, len(grid.cases) // 3, 2 * len(grid.cases) // 3):
         if i < len(grid.cases):
             ctx.sample({'request': grid.meta[i]['request'], 'version': grid.meta[i]['version'], 'observed': grid.meta[i]['observed'],
